@@ -740,7 +740,7 @@ def open_stream(fp: BinaryIO, mode: str) -> BinaryIO:
         fp = lz4.open(fp, mode=mode)
     elif HAS_ZSTD and peek_data[:4] == ZSTD_MAGIC:
         dctx = zstd.ZstdDecompressor()
-        fp = dctx.stream_reader(fp)
+        fp = dctx.stream_reader(fp, read_across_frames=True)
 
     return fp
 
@@ -818,7 +818,7 @@ def open_path(path: str, mode: str, clobber: bool = True) -> IO:
                 raise RuntimeError("zstandard python module not available")
             if not out:
                 dctx = zstd.ZstdDecompressor()
-                fp = dctx.stream_reader(open(path, "rb"))
+                fp = dctx.stream_reader(open(path, "rb"), read_across_frames=True)
             else:
                 cctx = zstd.ZstdCompressor()
                 fp = cctx.stream_writer(open(path, "wb"))
